@@ -69,6 +69,28 @@ type vRbfRun struct {
 	sigs  map[string]vJ // signature bytes -> descriptor of the signed tx
 	calls []vJ          // every wallet call
 	prev  *wire.TxOut
+
+	// A MuSig2 partial signature only exists within its signing session: the
+	// closee's partial signature answers ONE closing_complete (it is made with
+	// that message's JIT closer nonce).  session: partial sig -> closer nonce of
+	// the closing_complete it answers.  While a closing_sig is converted for
+	// its receiver, a partial signature of another session than the receiver's
+	// latest closing_complete is a signature on nothing (vNoDesc).
+	session    map[string]string
+	checkFresh bool
+	freshFor   string
+}
+
+// vCCNonce is the JIT closer nonce of a taproot closing_complete ("" otherwise).
+func vCCNonce(m *lnwire.ClosingComplete) string {
+	nonce := ""
+	for _, o := range []fn.Option[lnwire.PartialSigWithNonce]{
+		m.TaprootClosingSigs.CloserNoClosee.ValOpt(),
+		m.TaprootClosingSigs.NoCloserClosee.ValOpt(),
+		m.TaprootClosingSigs.CloserAndClosee.ValOpt()} {
+		o.WhenSome(func(p lnwire.PartialSigWithNonce) { nonce = vHex(p.Nonce[:]) })
+	}
+	return nonce
 }
 
 func vSigKey(sig input.Signature) string {
@@ -104,6 +126,9 @@ type vSigner struct {
 	who  string
 	lc   *lnwallet.LightningChannel
 	last int // class of the last CreateCloseProposal error
+
+	// closer nonce of the closing_complete being answered ("" if none)
+	session string
 }
 
 func (s *vSigner) CreateCloseProposal(fee btcutil.Amount, ls, rs []byte,
@@ -118,6 +143,9 @@ func (s *vSigner) CreateCloseProposal(fee btcutil.Amount, ls, rs []byte,
 		c["d"] = vDescJ(tx)
 		c["bal"] = int64(bal)
 		s.run.sigs[vSigKey(sig)] = vDescJ(tx)
+		if _, ok := sig.(*lnwallet.MusigPartialSig); ok {
+			s.run.session[vSigKey(sig)] = s.session
+		}
 	}
 	s.run.calls = append(s.run.calls, c)
 	return sig, tx, bal, err
@@ -176,6 +204,8 @@ type vRbfNode struct {
 	steps  []vJ
 	bcasts []vJ
 	user   []ProtocolEvent // user events still to be injected, in order
+
+	lastCCNonce string // JIT nonce of our latest taproot closing_complete
 }
 
 func vValidScript(s []byte) bool {
@@ -200,6 +230,9 @@ func (r *vRbfRun) sigsJ(reg [3]fn.Option[lnwire.Sig],
 		tap[i].WhenSome(func(p lnwire.PartialSig) {
 			b := p.Sig.Bytes()
 			out[n] = r.sigDesc(vHex(b[:]))
+			if r.checkFresh && r.session[vHex(b[:])] != r.freshFor {
+				out[n] = vNoDesc
+			}
 		})
 		if out[n] == nil {
 			reg[i].WhenSome(func(s lnwire.Sig) {
@@ -395,7 +428,11 @@ func vRoundTrip(t *testing.T, m lnwire.Message) lnwire.Message {
 // they are emitted; the first error stops the machine.
 func (n *vRbfNode) feed(ev ProtocolEvent) {
 	r := n.run
+	if _, ok := ev.(*LocalSigReceived); ok {
+		r.checkFresh, r.freshFor = true, n.lastCCNonce
+	}
 	evJ := r.eventJ(ev)
+	r.checkFresh = false
 	n.outs = nil
 	var deadJ vJ
 	queue := []ProtocolEvent{ev}
@@ -404,6 +441,10 @@ func (n *vRbfNode) feed(ev ProtocolEvent) {
 		queue = queue[1:]
 		signer := n.env.CloseSigner.(*vSigner)
 		signer.last = 0
+		signer.session = ""
+		if oe, ok := e.(*OfferReceivedEvent); ok {
+			signer.session = vCCNonce(&oe.SigMsg)
+		}
 		tr, err := n.state.ProcessEvent(e, n.env)
 		if err != nil {
 			n.dead = true
@@ -430,6 +471,7 @@ func (n *vRbfNode) feed(ev ProtocolEvent) {
 							n.outs = append(n.outs, vJ{"o": "Shutdown",
 								"scr": vHex(mm.Address)})
 						case *lnwire.ClosingComplete:
+							n.lastCCNonce = vCCNonce(mm)
 							n.outs = append(n.outs, vJ{
 								"o": "ClosingComplete", "m": r.ccJ(mm)})
 						case *lnwire.ClosingSig:
@@ -546,7 +588,8 @@ func vRunRbf(t *testing.T, out *vWriter, r *vrng, c vRbfCase) {
 		sb.LocalChanCfg.DustLimit = btcutil.Amount(c.dustB)
 		sa.RemoteChanCfg.DustLimit = btcutil.Amount(c.dustB)
 	}
-	run := &vRbfRun{t: t, sigs: map[string]vJ{}, prev: a.FundingTxOut(),
+	run := &vRbfRun{t: t, sigs: map[string]vJ{}, session: map[string]string{},
+		prev: a.FundingTxOut(),
 		calls: []vJ{}}
 
 	privA, _ := btcec.PrivKeyFromBytes(bytes.Repeat([]byte{0x11}, 32))
